@@ -217,7 +217,12 @@ def check_case(case, scratch, stats=None):
             if stats is not None:
                 stats.dontcare['update did not complete: ' + gem.brief(r)] += 1
             break
-        bad, dc = judge_disk(root, upath, o, case)
+        if case.get('prior') == 'unreg_corrupt_gz':
+            # DESIGN §C03: an unregistered 'Manifest' that is a corrupt compressed stream is outside
+            # the statement (it is neither a Manifest nor an ordinary data file name)
+            bad, dc = [], 'unregistered Manifest that is a corrupt compressed stream'
+        else:
+            bad, dc = judge_disk(root, upath, o, case)
         if stats is not None:
             stats.transitions += 1
             if dc:
